@@ -59,7 +59,9 @@ def sh(cmd, timeout=1800, cwd=None, env=None, input=None):
 def run_gen():
     with Lock("coq"):
         rc, out = sh([sys.executable, os.path.join(VERIF, "tools", "gen.py")], timeout=120)
-    return rc == 0, out.strip()
+        # the source translator (functions -> MiniC terms, coq/Gen/Src_*.v); clang output is cached by source hash
+        rc2, out2 = sh([sys.executable, os.path.join(VERIF, "tools", "cgen.py")], timeout=900)
+    return rc == 0 and rc2 == 0, (out.strip() + "\n" + out2.strip()).strip()
 
 
 def gen_failed_files(out):
